@@ -235,6 +235,17 @@ pub fn judge(case: &Case, l: &mut Local) {
                         let got = canon_num(&out.replace(',', "."));
                         if got != want {
                             v(l, if sig > 15 { "f64" } else { ty }, "value-changed-by-serialisation", &scale_class, format!("{ty}: amount {:?} is serialised as {:?}", case.amount, out), case);
+                        } else if let Some(d) = allowed
+                            && d > 0
+                            && sig <= 15
+                            && case.amount.split_once(',').map(|x| x.1.len()) == Some(d)
+                            && !(case.amount.starts_with('0') && !case.amount.starts_with("0,"))
+                            && out != case.amount
+                        {
+                            // the documented spelling of a currency amount carries exactly the currency's decimals
+                            // ("1234,56", "123,456" for BHD): an amount written that way and within the limit is
+                            // the library's own spelling and must come back character for character
+                            v(l, ty, "documented-spelling-not-reproduced", &format!("{}:len{}", dec_class(allowed), if case.amount.len() == limit { "=max" } else { "<max" }), format!("{ty}: amount {:?} ({}), written with the currency's own decimals, is serialised as {:?}", case.amount, case.ccy, out), case);
                         }
                     }
                     None => {}
@@ -374,6 +385,19 @@ pub fn run(cfg: &Config) -> i32 {
                 for frac in ["05", "005", "0005", "00005", "50", "500", "0050", "010", "0100", "000"] {
                     let amount = format!("{int},{frac}");
                     cases.push(Case { ty: ty.to_string(), ccy: ccy.to_string(), amount, class: format!("int{}:dec{}:zeros-in-decimals", int.len(), frac.len()) });
+                }
+            }
+            // the currency's own number of decimals ending in zeros, at the limit and one below it
+            if *has_ccy {
+                let d = minor_units(ccy);
+                if d > 0 {
+                    for total in [*limit, limit - 1, limit - 2] {
+                        let int_len = total - 1 - d;
+                        for frac in ["0".repeat(d), format!("5{}", "0".repeat(d - 1))] {
+                            let amount = format!("{},{frac}", "123456789012345".chars().take(int_len).collect::<String>());
+                            cases.push(Case { ty: ty.to_string(), ccy: ccy.to_string(), amount, class: format!("int{int_len}:dec{d}:ends-in-zero:len{}", if total == *limit { "=max".to_string() } else { format!("=max-{}", limit - total) }) });
+                        }
+                    }
                 }
             }
             // ordinary magnitudes with many decimals: total lengths around and beyond the limit (a length check
